@@ -39,6 +39,8 @@ class NumpyEncoder(json.JSONEncoder):
     def default(self, obj):
         if isinstance(obj, np.ndarray):
             return obj.tolist()
+        if isinstance(obj, np.generic):
+            return obj.item()
         return json.JSONEncoder.default(self, obj)
 
 
